@@ -177,4 +177,6 @@ package mysql
 //@ func ParseResultField(packet *Packet, mariaDBExtendedTypeInfo bool) (field *ColumnDescription, err error)
 //@   props C12 C14
 //@   safety
+//@   opt cutoffsets yes
+//@   at call base.LengthEncodedInt#1 : assert 0 <= pos && pos < len(packet.data)
 //@   ensures (err == nil) <==> (field != nil)
